@@ -31,11 +31,11 @@ EXHAUSTIVE = {"quick": False, "thorough": False}
 SOFT_LIMIT = {"quick": 240, "thorough": 1500}
 REQUIRED_FUNCS = ["sempler/semi.py:DRFNet.__init__", "sempler/semi.py:DRFNet.sample", "sempler/semi.py:BayesianNetwork.sample",
                   "sempler/semi.py:_bootstrap", "drf/code.py:drf.fit", "drf/code.py:drf.predict"]
-REQUIRED_COUNTERS = {"quick": {"sample-calls": 600, "queries-checked": 1000, "fits-checked": 500, "independence-asserted": 100,
+REQUIRED_COUNTERS = {"quick": {"sample-calls": 600, "queries-checked": 1000, "fits-checked": 500, "independence-asserted": 100, "forest-draws-independence-asserted": 300,
                                "repro:seeded-pairs": 200, "repro:seed0": 20, "errors:raised-as-documented": 400, "n:list": 50, "n:int": 50, "n:None": 50},
-                     "thorough": {"sample-calls": 3000, "queries-checked": 6000, "fits-checked": 3000, "independence-asserted": 500,
+                     "thorough": {"sample-calls": 3000, "queries-checked": 6000, "fits-checked": 3000, "independence-asserted": 500, "forest-draws-independence-asserted": 1500,
                                   "repro:seeded-pairs": 1000, "repro:seed0": 100, "errors:raised-as-documented": 400, "n:list": 250, "n:int": 250, "n:None": 250}}
-N = {"quick": 320, "thorough": 4000}
+N = {"quick": 320, "thorough": 3200}
 
 
 def gen(tier, seed, shard, nshards):
@@ -190,6 +190,46 @@ def judge(family, case, rec):
                     rec.violation("C19:sources-not-independent", family, case,
                                   "environment %d, random_state=%r: source variables %d and %d were resampled from the same training row in %d of %d "
                                   "synthetic rows (expected about %d if independent; bound %.3g)" % (k, rs, a, b, match, nbig, nbig // Ns[k], bound))
+                    return
+    # ---- the draws of different forests are independent of one another given the queries: with the stand-in backend every query
+    # row weights exactly three training rows equally, so *which* of the three was drawn (rank 0/1/2 by training index) is uniform and
+    # independent between any two (variable, environment) pairs: the number of rows with equal rank is Bin(n, 1/3)
+    if len(nonsrc) * e >= 2 and min(Ns) >= 3:
+        nbig = 400
+        for rs in (None, case["rs"]):
+            try:
+                res, events = run_sample(nbig, rs)
+            except Exception as ex:
+                rec.exception_violation("C19:sample-exception", family, case, "sample(%d, random_state=%r) raised" % (nbig, rs), ex)
+                return
+            preds = {ev["fit"]: ev for ev in events if ev["op"] == "predict"}
+            ranks = {}
+            for i in nonsrc:
+                for k in range(e):
+                    ev = preds.get(fit_of[(i, k)])
+                    if ev is None or ev["weights"].shape[0] != nbig:
+                        continue
+                    pos = {v: r for r, v in enumerate(data0[k][:, i].tolist())}
+                    col = np.asarray(res[k])[:, i].tolist()
+                    rk = np.full(nbig, -1)
+                    for r in range(nbig):
+                        sup = np.flatnonzero(ev["weights"][r] > 0)
+                        t = pos.get(col[r])
+                        if t is not None and len(sup) == 3 and t in sup:
+                            rk[r] = int(np.searchsorted(sup, t))
+                    if (rk >= 0).all():
+                        ranks[(i, k)] = rk
+            keys = sorted(ranks)
+            pairs = [(keys[a], keys[b]) for a in range(len(keys)) for b in range(a + 1, len(keys))][:8]
+            for (ka, kb) in pairs:
+                match = int((ranks[ka] == ranks[kb]).sum())
+                rec.count("forest-draws-independence-asserted")
+                rec.max("max-equal-rank-fraction", match / float(nbig))
+                if match > nbig / 3.0 and S.binom_tail_bound(match, nbig, 1.0 / 3.0) < S.DELTA:
+                    rec.violation("C19:forest-draws-not-independent", family, case,
+                                  "random_state=%r: the forests of (variable %d, environment %d) and (variable %d, environment %d) drew the same one of their "
+                                  "three weighted training rows in %d of %d synthetic rows (about %d expected for independent draws)"
+                                  % (rs, ka[0], ka[1], kb[0], kb[1], match, nbig, nbig // 3))
                     return
     # ---- reproducibility across perturbed histories
     rs = case["rs"]
